@@ -276,6 +276,39 @@ func pathContains(path []unsafe.Pointer, item unsafe.Pointer) bool {
 	return slices.Contains(path, item)
 }
 
+// isNumber reports whether s (without its sign) has the form
+// of a JSON number: digits, an optional fraction of one or more
+// digits, and an optional exponent of one or more digits.
+func isNumber(s string) bool {
+	i := 0
+	digits := func() bool {
+		start := i
+		for i < len(s) && isdigit(s[i]) {
+			i++
+		}
+		return i > start
+	}
+	if !digits() {
+		return false
+	}
+	if i < len(s) && s[i] == '.' {
+		i++
+		if !digits() {
+			return false
+		}
+	}
+	if i < len(s) && (s[i] == 'e' || s[i] == 'E') {
+		i++
+		if i < len(s) && (s[i] == '+' || s[i] == '-') {
+			i++
+		}
+		if !digits() {
+			return false
+		}
+	}
+	return i == len(s)
+}
+
 // isPrintableASCII reports whether s contains only printable ASCII.
 func isPrintableASCII(s string) bool {
 	for i := 0; i < len(s); i++ {
@@ -511,6 +544,9 @@ func decode(thread *starlark.Thread, b *starlark.Builtin, args starlark.Tuple, k
 					digits = num[1:]
 				}
 				if digits == "" || digits[0] == '0' && len(digits) > 1 && isdigit(digits[1]) {
+					fail("invalid number: %s", num)
+				}
+				if !isNumber(digits) {
 					fail("invalid number: %s", num)
 				}
 
